@@ -135,10 +135,16 @@ Proof.
   intros Hk Hl. unfold kraw, kleaf. rewrite Hk. cbn [Nat.add]. now rewrite sub_sub by lia.
 Qed.
 
-Lemma until_nul_name n k : Forall (fun b => b <> 0%N) n -> until_nul (n ++ repeat 0%N (S k)) = n.
+Lemma until_nul_name n k : Forall (fun b => b <> 0%N) n -> until_nul (n ++ repeat 0%N k) = n.
 Proof.
-  induction 1 as [|b r Hb _ IH]; cbn [until_nul app repeat]; [reflexivity|].
+  induction 1 as [|b r Hb _ IH]; [destruct k; reflexivity|]. cbn [until_nul app].
   destruct (N.eqb_spec b 0); [contradiction|]. now rewrite IH.
+Qed.
+
+Lemma firstn_repeat_le {A} (x : A) n m : n <= m -> firstn n (repeat x m) = repeat x n.
+Proof.
+  revert m; induction n as [|n IH]; intros m H; [reflexivity|].
+  destruct m; [lia|]. cbn [repeat firstn]. f_equal. apply IH. lia.
 Qed.
 
 Lemma name_image n : wf_name n -> until_nul (firstn 63 (fit 64 0%N n)) = n.
@@ -146,8 +152,8 @@ Proof.
   intros [Hl Hz]. rewrite fit_short by lia.
   assert (E : firstn 63 (n ++ repeat 0%N (64 - List.length n)) = n ++ repeat 0%N (63 - List.length n)).
   { rewrite firstn_app. rewrite firstn_all2 by lia. f_equal.
-    rewrite firstn_repeat'. f_equal. lia. }
-  rewrite E. replace (63 - List.length n) with (S (62 - List.length n)) by lia. now apply until_nul_name.
+    replace (63 - List.length n) with (63 - List.length n) by reflexivity. apply firstn_repeat_le. lia. }
+  rewrite E. now apply until_nul_name.
 Qed.
 
 Lemma key_image k : List.length k <= 64 -> sub (fit 64 0%N k) 0 (List.length k) = k.
@@ -187,8 +193,8 @@ Proof.
     assert (Hd : 136 <= List.length d).
     { subst d. cbn [app]. rewrite app_length, encode_struct_length by closed.
       change (c_size (Py.Internal Py.XfrmAlgo)) with 136. lia. }
-    rewrite (kint_sub K.xfrm_algo "alg_key_len" d 4 132 (mkleaf "alg_key_len" 64 1 4 LE false false)) by closed.
-    rewrite (kraw_sub K.xfrm_algo "alg_name" d 4 132 (mkleaf "alg_name" 0 64 1 LE true false)) by closed.
+    rewrite (kint_sub K.xfrm_algo "alg_key_len" d 4 132 (mkleaf "alg_key_len" 64 1 4 LE false false)) by (first [closed | cbn; lia]).
+    rewrite (kraw_sub K.xfrm_algo "alg_name" d 4 132 (mkleaf "alg_name" 0 64 1 LE true false)) by (first [closed | cbn; lia]).
     subst d.
     kf_ K.xfrm_algo (Py.Internal Py.XfrmAlgo) "alg_key_len" "data.alg_key_len".
     kr_ K.xfrm_algo (Py.Internal Py.XfrmAlgo) "alg_name" "data.alg_name".
